@@ -41,15 +41,13 @@ def gen_param(ctx, f):
             if f not in s_.callees:
                 continue
             here = set()
-            for i, a in enumerate(s_.node.args):
-                e = a
-                if isinstance(a, ast.Name):
-                    d = c05.single_def(g, a.id)
-                    if d is not None:
-                        e = d.value
-                if any(isinstance(x, ast.Constant)
-                       and x.value == 'consumer_generation'
-                       for x in ast.walk(e)):
+            pairs = list(enumerate(s_.node.args)) + [
+                (f.params.index(k.arg), k.value) for k in s_.node.keywords
+                if k.arg in f.params]
+            deps = C.Deps(g)
+            for i, a in pairs:
+                if deps.reaches(a, lambda x: isinstance(x, ast.Constant)
+                                and x.value == 'consumer_generation'):
                     here.add(i)
             idx = here if idx is None else (idx & here)
     if idx and len(idx) == 1:
@@ -439,8 +437,18 @@ def r64(ctx, R):
             if any(c.qbase == 'placement.handlers.allocation:_new_allocations'
                    for c in s.callees):
                 n += 1
-                a = s.node.args[2] if len(s.node.args) > 2 else C.kwarg(
-                    s.node, 'consumer')
+                callee = [c for c in s.callees if c.qbase ==
+                          'placement.handlers.allocation:_new_allocations'][0]
+                cparam = None
+                for x in own_nodes(callee.node):
+                    if isinstance(x, ast.Call) and src(x.func).endswith(
+                            'Allocation'):
+                        kv = C.kwarg(x, 'consumer')
+                        if isinstance(kv, ast.Name) and kv.id in \
+                                callee.params:
+                            cparam = kv.id
+                a = C.arg_for_param(s.node, callee, cparam) if cparam \
+                    else None
                 ok = isinstance(a, ast.Name) and a.id in checked
                 R.ob('R6.4', '%s:new-allocations' % f.qbase, ok,
                      'new Allocation objects carry the checked consumer',
